@@ -74,7 +74,7 @@ def _free_port_base(span: int) -> int:
     import socket
     rng = random.Random(os.getpid())
     for _ in range(50):
-        base = rng.randrange(21000, 60000 - span)
+        base = rng.randrange(12000, 32000 - span)      # below the ephemeral range (32768+), which other processes' connections use
         ok = True
         for p in range(base, base + span, 7):
             s = socket.socket()
@@ -192,6 +192,13 @@ def run(ctx):
         i, sc = ic
         tag = f"v{os.getpid() % 10000}n{i}"
         ob = run_scenario(sc, base + i * 40, tag, deadline, ctx.scratch)
+        if ob["outcome"] == "error" and str(ob.get("what", "")).startswith("TypeError:<class 'cascade.executor.msg."):
+            # the Bridge constructor met something else than a registration: an executor could not even start (a port of its
+            # range was taken by another process of the machine). Faults are injected inside task bodies, i.e. after
+            # registration, so this is never the scenario's doing: run it once more on another port range.
+            ob2 = run_scenario(sc, base + (len(cases) + i) * 40, tag + "r", deadline, ctx.scratch)
+            ob2["rerun"] = "startup"
+            return ob2
         if ob["outcome"] == "hang" and not ob.get("in_recv_events", False):
             # a miss that is not the controller waiting in recv_events is re-run once (machine load)
             ob2 = run_scenario(sc, base + (len(cases) + i) * 40, tag + "r", deadline, ctx.scratch)
